@@ -94,10 +94,13 @@ def supplied_for(draw, d, cli):
         kinds.append("not_allowed")
     if ty != "str":
         kinds += ["unparseable", "lossy"] if ty == "int" else ["unparseable"]
+        # an instance of a subclass of the declared type (bool / int subclass for int, numpy.float64 for float):
+        # the prepared value must be of the declared type itself
+        kinds.append("subclass")
     elif not cli:
         kinds.append("wrong_type")
     if cli:
-        kinds = [k for k in kinds if k not in ("int_for_float", "lossy")]
+        kinds = [k for k in kinds if k not in ("int_for_float", "lossy", "subclass")]
     kind = draw(st.sampled_from(kinds))
     if kind == "typed":
         v = draw(st.sampled_from(good))
@@ -110,6 +113,12 @@ def supplied_for(draw, d, cli):
         v = draw(st.sampled_from(str_forms(ty, draw(st.sampled_from(good)))))
     elif kind == "int_for_float":
         cands = [int(x) for x in good if x == x and abs(x) < 1e15 and x == int(x)]
+        if not cands:
+            kind, v = "typed", draw(st.sampled_from(good))
+        else:
+            v = draw(st.sampled_from(cands))
+    elif kind == "subclass":
+        cands = [x for x in good if x == x and abs(x) < 1e15]
         if not cands:
             kind, v = "typed", draw(st.sampled_from(good))
         else:
@@ -260,6 +269,19 @@ def expected(defs, supplied):
     return ("ok", res, lossy)
 
 
+class _IntSub(int):
+    """An int subclass (what an IntEnum member or a bool is)."""
+
+
+def _instance(ty, kind, v):
+    if kind != "subclass":
+        return v
+    if ty == "int":
+        return bool(v) if v in (0, 1) else _IntSub(v)
+    import numpy
+    return numpy.float64(v)
+
+
 def same(a, b):
     if type(a) is not type(b):
         return False
@@ -299,21 +321,40 @@ def run_case(case):
             labels.append("entry:" + c["entry"]) if ("entry:" + c["entry"]) not in labels else None
             if len(defs) >= 2 and any(k not in ("typed",) for k in kinds):
                 nontrivial = True
-            params = {s[0]: s[2] for s in sup}
+            tyof = {d[0]: d[1] for d in defs}
+            params = {s[0]: _instance(tyof.get(s[0]), s[1], s[2]) for s in sup}
             desc = "call %d %s(%r) on %s" % (ci, c["entry"], params, case.get("algo") or defs)
             got, err = None, None
+            # the caller's dict: every other call hands the very same dict object over twice (a script preparing
+            # several algorithms with one set of common parameters); the second preparation is the one checked
+            user = dict(params)
+            resubmit = ci % 2 == 1 and c["entry"] != "cli"
+            if resubmit:
+                labels.append("resubmitted") if "resubmitted" not in labels else None
+                desc = "second submission of the same dict, " + desc
+                try:
+                    with under_test(), contextlib.redirect_stdout(io.StringIO()):
+                        if c["entry"] == "prepare":
+                            prepare_algo_params(user, pdefs)
+                        elif c["entry"] == "build_defs":
+                            AlgorithmDef.build_with_default_param(algo, user, mode=c["mode"],
+                                                                  parameters_definitions=pdefs)
+                        else:
+                            AlgorithmDef.build_with_default_param(algo, user, mode=c["mode"])
+                except UnderTestError:
+                    pass
             try:
                 buf = io.StringIO()
                 with under_test(), contextlib.redirect_stdout(buf):
                     if c["entry"] == "prepare":
-                        got = prepare_algo_params(dict(params), pdefs)
+                        got = prepare_algo_params(user, pdefs)
                         adef = None
                     elif c["entry"] == "build_defs":
-                        adef = AlgorithmDef.build_with_default_param(algo, dict(params), mode=c["mode"],
+                        adef = AlgorithmDef.build_with_default_param(algo, user, mode=c["mode"],
                                                                      parameters_definitions=pdefs)
                         got = adef.params
                     elif c["entry"] == "build_name":
-                        adef = AlgorithmDef.build_with_default_param(algo, dict(params), mode=c["mode"])
+                        adef = AlgorithmDef.build_with_default_param(algo, user, mode=c["mode"])
                         got = adef.params
                     else:
                         cli = ["%s:%s" % (s[0], s[2]) for s in sup]
